@@ -62,6 +62,11 @@ chk("C14", "exploration", "E2-input-enumerator",
     "All byte strings up to 13 (thorough 15) bytes over {00,01,02} and up to 8 (9) over {00,01,03,65,FF}, constructive unit lists, and all 8192 ADTS frame lengths x protection x buffer length x field variants, through the public conversion functions and through a real muxer with the stored sample read back.",
     "Trusted base: reference splitter / ADTS parser in harness/oracle/src/refmodel.rs; the independent reader.", "DESIGN.md §4 C14")
 
+chk("C07", "exploration", "E2-input-enumerator",
+    "bounded exhaustive enumeration of first keyframes / sequence headers / audio configurations produced by spec-level writers, expected record fields known by construction",
+    "All first keyframes of <= 4 (thorough 5) NAL units over a parameter-set alphabet x framings; all AV1 sequence headers over the branch product of spec 5.5 written by an independent bit writer x OBU layouts; all VP9 headers of the accepted form; all audio (codec, rate, channels) combinations; all fragmented builder configurations. The config record read back from the finished file / init segment must equal what the generator wrote.",
+    READER + " The AV1 bit writer follows AV1 spec 5.5 and is the source of truth for expected av1C fields.", "DESIGN.md §4 C07")
+
 NOT_YET = {
 }
 
